@@ -657,7 +657,7 @@ func forwardLookupTable(c *eng.Ctx) {
 	// writer: one contiguous run per container
 	fl := c.Fn("index.forwardIndex.flush")
 	body := fl
-	for _, cl := range eng.Closures(fl) {
+	for _, cl := range closuresT(fl) {
 		if len(p.Sites(cl, invokeOn("", "WriteTagValueIDs"))) > 0 {
 			body = cl
 		}
